@@ -86,7 +86,8 @@ def enum_blocks(tier, shard, nshards):
     block-wise / unrolled / vectorised loops have their slips exactly there."""
     i = 0
     lengths = [15, 16, 17, 31, 32, 33, 63, 64, 65, 127, 128, 129, 255, 256, 257] + (
-        [1023, 1024, 1025] if tier == "quick" else [511, 512, 513, 1023, 1024, 1025, 4095, 4096, 4097])
+        [1023, 1024, 1025, 8192, 8193] if tier == "quick" else [511, 512, 513, 1023, 1024, 1025, 4095, 4096, 4097, 8191,
+                                                              8192, 8193, 16384, 65536])
     for n in lengths:
         for step in (1, 2):
             for base in (0, TOP - step * (n + 2)):
